@@ -80,8 +80,6 @@ pub fn pressure_rom(op: u8) -> crate::rom::RomImage {
     rom
 }
 
-/// (bank 7 holds DAA, the instruction with the longest translation, so that the room left in
-/// the translation area is tested against the largest block there is)
 /// Cache pressure with bank switching and revisits: every bank 1..7 holds a run of
 /// a different one-byte instruction; each iteration selects a bank (2,3,..,7,1),
 /// enters the run at HL (which advances after bank 1) and then at the fixed
@@ -89,14 +87,37 @@ pub fn pressure_rom(op: u8) -> crate::rom::RomImage {
 /// with different banks mapped at that moment, and addresses translated before a
 /// restart are executed again after it - under the same and under other banks.
 pub fn pressure_rom2() -> crate::rom::RomImage {
-    pressure_rom_ops([0x3cu8, 0x0c, 0x14, 0x1c, 0x3d, 0x0d, 0x27], 0)
+    pressure_rom_ops([0x3cu8, 0x0c, 0x14, 0x1c, 0x3d, 0x0d, 0x15], 0)
 }
 
 /// the same program with the run of every bank ending at a different offset (97 bytes
 /// earlier from bank to bank): executing one bank's translation under another bank shows in
 /// the cycle count of the block, not only in the registers
 pub fn pressure_rom3() -> crate::rom::RomImage {
-    pressure_rom_ops([0x3cu8, 0x0c, 0x14, 0x1c, 0x3d, 0x0d, 0x27], 97)
+    pressure_rom_ops([0x3cu8, 0x0c, 0x14, 0x1c, 0x3d, 0x0d, 0x15], 97)
+}
+
+/// the same program with every bank's run transmitting the bank's own byte before it returns
+/// (and no transmission from the main loop): whichever bank's code really runs shows on the
+/// serial stream
+pub fn pressure_rom4() -> crate::rom::RomImage {
+    let mut rom = pressure_rom_ops([0x3cu8, 0x0c, 0x14, 0x1c, 0x3d, 0x0d, 0x15], 0);
+    for bank in 1..8usize {
+        let tail = [0x3e, 0x30 + bank as u8, 0xe0, 0x01, 0x3e, 0x81, 0xe0, 0x02, 0xc9];
+        let at = bank * 0x4000 + 0x4000 - tail.len();
+        rom.bytes[at..at + tail.len()].copy_from_slice(&tail);
+    }
+    // the main loop's own transmission becomes NOPs
+    for a in 0x150..0x150 + 46 {
+        if rom.bytes[a..a + 8] == [0x3e, 0x41, 0xe0, 0x01, 0x3e, 0x81, 0xe0, 0x02] {
+            for b in &mut rom.bytes[a..a + 8] {
+                *b = 0x00;
+            }
+            break;
+        }
+    }
+    rom.fix_checksum();
+    rom
 }
 
 fn pressure_rom_ops(ops: [u8; 7], shorten: usize) -> crate::rom::RomImage {
